@@ -162,6 +162,13 @@ var SubstrFunc = function.New(&function.Spec{
 			return cty.NilVal, err
 		}
 
+		if length == 0 {
+			// Short circuit here, after error checks, because if a
+			// string of length 0 has been requested it will always
+			// be the empty string
+			return cty.StringVal(""), nil
+		}
+
 		if offset < 0 {
 			totalLenNum, err := Strlen(args[0])
 			if err != nil {
@@ -177,11 +184,6 @@ var SubstrFunc = function.New(&function.Spec{
 			}
 
 			offset += totalLen
-		} else if length == 0 {
-			// Short circuit here, after error checks, because if a
-			// string of length 0 has been requested it will always
-			// be the empty string
-			return cty.StringVal(""), nil
 		}
 
 		sub := in
